@@ -1,5 +1,5 @@
 def _c10_relevant(op):
-    return op.split(" ")[0] in ("new", "set", "sets", "setf", "setw", "seti", "setb", "rm", "clear", "setgrp", "copy", "build",
+    return op.split(" ")[0] in ("new", "set", "sets", "setf", "setw", "seti", "setb", "rm", "clear", "setgrp", "copy", "fork", "sidebuild", "build",
                                 "bytes", "copybuild", "reparse", "has", "get", "geti", "tags", "static")
 
 def _c10_project(op, line):
